@@ -20,7 +20,9 @@ Sub-checks
           deviations.
   timer : selected ERTM data cases with the virtual clock jumping past the
           retransmission time-out before message k, for every k (= the peer's
-          acknowledgement is delayed longer than the time-out, nothing is lost).
+          acknowledgement is delayed longer than the time-out, nothing is lost);
+          thorough adds one more order-preserving delay on top of every jump
+          index for two of the cases (timer_sched).
 
 Oracle (reference = the list of SDUs written + the frames on the wire):
   sink SDUs == written SDUs per direction; ERTM: TxSeq(n+1) = TxSeq(n)+1 mod 64,
